@@ -765,7 +765,7 @@ def download_gunzip_lines(remote):
     try:
         os.close(handle)
         (filename, _) = urlretrieve(remote, fname)
-        with gzip.open(filename, 'rt') as gfile:
+        with gzip.open(filename, 'rt', encoding='UTF-8') as gfile:
             lines = gfile.readlines()
     finally:
         os.unlink(fname)
